@@ -113,7 +113,28 @@ def reader_cls(block):
 
 STREAM_KINDS = ['buffered-16', 'buffered-40', 'buffered-96', 'buffered-97',
                 'buffered-4096', 'buffered-8192', 'file', 'peekable',
-                'prefixed-29', 'prefixed-4093', 'prefixed-buffered-72']
+                'prefixed-29', 'prefixed-4093', 'prefixed-buffered-72',
+                'mmap', 'plain-wrapper']
+
+
+class PlainWrapper(object):
+    """A thin file-like wrapper as applications write them: it forwards
+    read / seek / tell and returns nothing from seek()."""
+    def __init__(self, data):
+        self._s = io.BytesIO(data)
+        self.closed = False
+
+    def read(self, *a):
+        return self._s.read(*a)
+
+    def seek(self, *a):
+        self._s.seek(*a)
+
+    def tell(self):
+        return self._s.tell()
+
+    def close(self):
+        self.closed = True
 
 # what precedes the DiffX data in a 'prefixed' stream (a mail header, an
 # export banner): consumed by the caller before the reader gets the stream
@@ -131,12 +152,26 @@ class Peekable(io.BytesIO):
         return d
 
 
+_MMAP_FILES = []
+
+
 def open_stream(data, kind):
     if kind.startswith('buffered-'):
         return io.BufferedReader(io.BytesIO(data),
                                  buffer_size=int(kind.split('-')[1]))
     if kind == 'peekable':
         return Peekable(data)
+    if kind == 'plain-wrapper':
+        return PlainWrapper(data)
+    if kind == 'mmap':
+        import mmap
+        import tempfile
+        f = tempfile.TemporaryFile()
+        f.write(data or b'\n')
+        f.flush()
+        m = mmap.mmap(f.fileno(), 0, access=mmap.ACCESS_READ)
+        f.close()           # (the mapping keeps its own descriptor)
+        return m
     if kind.startswith('prefixed-'):
         n = int(kind.rsplit('-', 1)[1])
         prefix = (PREFIX_LINE * (n // len(PREFIX_LINE) + 1))[:n - 1] + b'\n'
